@@ -59,7 +59,12 @@ def rewrite(node, overrides, tower, active=frozenset()):
 _HASHABLE_REIT = ('set', 'Set', 'frozenset', 'FrozenSet', 'AbstractSet', 'TAbstractSet', 'MutableSet', 'KeysView')
 
 
-def inject(draw, node, targets, depth=0, hits=None, hashable=False):
+def _typeable(n):
+    """n may stand below type[...]: a class or a union of classes."""
+    return n[0] == 'cls' or (n[0] == 'union' and n[2] != 'O' and all(m[0] == 'cls' for m in n[1]))
+
+
+def inject(draw, node, targets, depth=0, hits=None, hashable=False, typeable=()):
     """Replace some class leaves by rewrite targets (float, complex, override keys); positions whose
     members must be hashable (set items, mapping keys) only receive hashable targets."""
     k = node[0]
@@ -69,11 +74,15 @@ def inject(draw, node, targets, depth=0, hits=None, hashable=False):
             return node
         hits.append(depth)
         return draw(st.sampled_from(ts))
+    if k == 'type' and node[1] is not None and node[1][0] == 'cls' and typeable and draw(st.integers(0, 1)) == 0:
+        # type[A] with A a rewritten class whose replacement is a class or a union of classes: type[float] under the tower
+        hits.append(depth + 1)
+        return ['type', draw(st.sampled_from(list(typeable))), node[2]]
     if k in ('type', 'lit', 'tv', 'nt', 'alias', 'proto', 'shallow', 'none', 'any', 'cls'):
         return node
 
     def go(ch, h):
-        return inject(draw, ch, targets, depth + 1, hits, hashable or h)
+        return inject(draw, ch, targets, depth + 1, hits, hashable or h, typeable)
     if k in ('union', 'tupf'):
         return [k, [go(m, False) for m in node[1]]] + node[2:]
     if k in ('tupv', 'ann'):
@@ -154,12 +163,15 @@ def _case(draw, tier):
     base, _n = H.avoid_known_shapes(draw(H.hint_nodes(depth)))
     base = _opaque_free(base)
     hits = []
-    node = inject(draw, base, targets, 0, hits)
+    # rewritten classes that may stand alone below type[...]: their replacement is a class or a union of classes
+    typeable = [t for t in targets if t[0] == 'cls' and _typeable(rewrite(t, overrides, tower))]
+    node = inject(draw, base, targets, 0, hits, False, typeable)
     if not hits:
         # make sure at least one rewritten sub-hint is present
         t = draw(st.sampled_from(targets))
-        wrap = draw(st.sampled_from(['bare', 'list', 'dictv', 'tup', 'opt', 'opt', 'set', 'union2', 'listopt']))
-        node = {'bare': t, 'list': ['seq', 'list', t], 'dictv': ['map', 'dict', ['cls', 'str'], t],
+        wrap = draw(st.sampled_from(['bare', 'list', 'dictv', 'tup', 'opt', 'opt', 'set', 'union2', 'listopt'] +
+                                    (['type', 'listtype'] if t in typeable else [])))
+        node = {'type': ['type', t, 't'], 'listtype': ['seq', 'list', ['type', t, 'T']], 'bare': t, 'list': ['seq', 'list', t], 'dictv': ['map', 'dict', ['cls', 'str'], t],
                 'tup': ['tupf', [['cls', 'int'], t], 't'], 'opt': ['union', [t], 'O'],
                 'union2': ['union', [t, ['cls', 'VDerived']], 'U'], 'listopt': ['seq', 'list', ['union', [t], 'O']],
                 'set': ['reit', 'frozenset', t] if H.hashable_node(t) else ['seq', 'Sequence', t]}[wrap]
